@@ -252,3 +252,51 @@ pub open spec fn outcome_of(r: anyhow::Result<Option<FileBlocks>>) -> FileOutcom
         Ok(Some(fb)) => FileOutcome::Parsed { content: fb.file_content@, blocks: fb.blocks_with_context@ },
     }
 }
+
+// ---- rule E4: `for (k, v) in M` over a hash map (consuming) --------------------------------------------
+// Rust's definition of `for`: `M.into_iter()` + `next()` until `None`. vstd has no specification for
+// `hash_map::IntoIter`. Trusted, from the std doc of `HashMap::into_iter` ("an iterator visiting all
+// key-value pairs in arbitrary order"): the pairs form a duplicate-free sequence, in ARBITRARY
+// order, whose map view is `M@` (same statement as `entries_raw` of prelude/orch_maps.rs).
+pub open spec fn blocks_entries<K, V>(ents: Seq<(K, V)>, m: Map<K, V>) -> bool {
+    &&& forall|i: int| 0 <= i < ents.len() ==> m.contains_key((#[trigger] ents[i]).0) && m[ents[i].0] == ents[i].1
+    &&& forall|i: int, j: int| 0 <= i < j < ents.len() ==> (#[trigger] ents[i]).0 != (#[trigger] ents[j]).0
+    &&& forall|k: K| m.contains_key(k) ==> exists|i: int| 0 <= i < ents.len() && (#[trigger] ents[i]).0 == k
+}
+
+#[verifier::external_body]
+#[verifier::reject_recursive_types(K)]
+#[verifier::reject_recursive_types(V)]
+pub struct EntriesIter<K, V> { it: std::collections::hash_map::IntoIter<K, V> }
+
+impl<K, V> EntriesIter<K, V> {
+    /// ghost: the pairs `next` will still yield
+    pub uninterp spec fn pending(&self) -> Seq<(K, V)>;
+
+    #[verifier::external_body]
+    pub fn next(&mut self) -> (r: Option<(K, V)>)
+        ensures
+            old(self).pending().len() == 0 ==> r is None && final(self).pending() == old(self).pending(),
+            old(self).pending().len() > 0 ==> r == Some(old(self).pending()[0]) && final(self).pending() == old(self).pending().skip(1),
+    { self.it.next() }
+}
+
+#[verifier::external_body]
+pub fn verif_map_into_iter<K, V>(m: HashMap<K, V>) -> (r: EntriesIter<K, V>)
+    ensures
+        vstd::std_specs::hash::obeys_key_model::<K>() ==> blocks_entries(r.pending(), m@),
+{ EntriesIter { it: m.into_iter() } }
+
+// T-std: PathBuf is compared by its contents; a clone is equal to the original.
+pub assume_specification[ <PathBuf as Clone>::clone ](p: &PathBuf) -> (r: PathBuf)
+    ensures r == *p;
+
+/// E13 shim: `Option<Vec<T>>::as_deref()` (vstd has no specification; generic over `Deref`). std doc:
+/// "Converts from Option<T> (or &Option<T>) to Option<&T::Target>", for `Vec<T>` the target is the
+/// slice of the same elements.
+#[verifier::external_body]
+pub fn verif_opt_vec_as_deref<T>(o: &Option<Vec<T>>) -> (r: Option<&[T]>)
+    ensures
+        o is None ==> r is None,
+        o matches Some(v) ==> (r matches Some(s) && s@ == v@),
+{ o.as_deref() }
